@@ -551,7 +551,16 @@ def sum_(x, axis=None, **kw):
     return r.view(SArr) if isinstance(r, _np.ndarray) else r
 
 
+class HavocMatrix(SArr):
+    """result of a havoc'd pseudo-inverse: its product with anything is an arbitrary vector (DOT_HOOK supplies it)"""
+
+
+DOT_HOOK = [None]
+
+
 def dot(a, b, out=None):
+    if isinstance(a, HavocMatrix) and DOT_HOOK[0] is not None:
+        return DOT_HOOK[0](a, asarray(b))
     a, b = asarray(a), asarray(b)
     r = _np.dot(a, b)
     return r.view(SArr) if isinstance(r, _np.ndarray) else r
